@@ -172,12 +172,13 @@ Fixpoint bubble_down (g : dag) (fuel idx : nat) (l : list node) : list node :=
 Definition heap_push (g : dag) (x : node) (l : list node) : list node :=
   let l' := l ++ [x] in bubble_up g (length l') (length l' - 1) l'.
 
+(* Pop: Swap(0, last); Remove(last); bubbleDown() — i.e. the last element takes
+   the root's place in the remaining array *)
 Definition heap_pop (g : dag) (l : list node) : option (node * list node) :=
   match l with
   | [] => None
-  | v :: _ =>
-    let last := length l - 1 in
-    let l' := removelast (swap 0 last l) in
+  | v :: t =>
+    let l' := match t with [] => [] | _ => last t 0 :: removelast t end in
     Some (v, bubble_down g (length l') 0 l')
   end.
 
